@@ -57,7 +57,9 @@ RULE = ("corr: dyadic k/grid points with integer shifts of both signs, quarter-g
         "evaluate_k_path; each for random_gauge on/off and k vs k+G, plus mutual consistency of the routes.  The calculators' grouping options degen_thresh in {1e-4, 1e-3, 0.05} x "
         "degen_Kramers in {False, True} are exercised on systems with exact multiplets of size 2, 3, 4 and 6 at a grid "
         "k-point (H0 (x) 1_m tuned so that multiplets touch), for all tabulators, product formulas and integrated "
-        "calculators")
+        "calculators; every evaluable static calculator is also run with the LOWEST Fermi level placed between / at the "
+        "members of a 2- or 3-fold multiplet of a grid k-point that is exact or split by 2e-5..5e-5 (< degen_thresh), "
+        "random gauge on/off (tolerance 1e-8 for exact, 1e-6 + 40*splitting otherwise)")
 
 
 # ------------------------------------------------------------------------------------------------
@@ -365,14 +367,14 @@ def tabulators(**opts):
     }
 
 
-def integrators(Ef):
+def integrators(Ef, **opts):
     from wannierberri.calculators import static as S
     return {
-        "ahc": S.AHC(Efermi=Ef), "ahc_internal": S.AHC(Efermi=Ef, kwargs_formula={"external_terms": False}),
-        "morb": S.Morb(Efermi=Ef), "spin": S.Spin(Efermi=Ef), "cumdos": S.CumDOS(Efermi=Ef),
-        "ohmic_sea": S.Ohmic_FermiSea(Efermi=Ef), "ohmic_surf": S.Ohmic_FermiSurf(Efermi=Ef),
-        "berry_dipole_sea": S.BerryDipole_FermiSea(Efermi=Ef), "gme_orb_sea": S.GME_orb_FermiSea(Efermi=Ef),
-        "gme_spin_sea": S.GME_spin_FermiSea(Efermi=Ef),
+        "ahc": S.AHC(Efermi=Ef, **opts), "ahc_internal": S.AHC(Efermi=Ef, kwargs_formula={"external_terms": False}, **opts),
+        "morb": S.Morb(Efermi=Ef, **opts), "spin": S.Spin(Efermi=Ef, **opts), "cumdos": S.CumDOS(Efermi=Ef, **opts),
+        "ohmic_sea": S.Ohmic_FermiSea(Efermi=Ef, **opts), "ohmic_surf": S.Ohmic_FermiSurf(Efermi=Ef, **opts),
+        "berry_dipole_sea": S.BerryDipole_FermiSea(Efermi=Ef, **opts), "gme_orb_sea": S.GME_orb_FermiSea(Efermi=Ef, **opts),
+        "gme_spin_sea": S.GME_spin_FermiSea(Efermi=Ef, **opts),
     }
 
 
@@ -864,7 +866,54 @@ def case_options(ctx, case):
                     rr[0].results[name].data, rr[1].results[name].data, dict(info, calculator=name, Efermi=Ef, NK=NKFFT))
 
 
-RUNNERS = {"options": case_options, "routes": case_routes, "touch_k": case_touch_k, "touch_run": case_touch_run, "periodic": case_periodic, "periodic_kp": case_periodic_kp, "gauge_k": case_gauge_k, "gauge_run": case_gauge_run}
+def case_sea_gauge(ctx, case):
+    """Fermi-sea (and all other) integrated calculators with the LOWEST Fermi level inside a multiplet of a grid k-point
+    that the calculators treat as degenerate (splitting 0 or below degen_thresh): random gauge on/off"""
+    from ..wbsys import rand_system, wb
+    from .c27 import tune_spectrum
+    rs = np.random.RandomState(case["seed"])
+    nw, m, delta = case["nw"], case["m"], case["delta"]
+    with quiet():
+        s = rand_system(rs, num_wann=nw, nR=int(rs.randint(3, 6)), max_R=1, matrices=ALLMAT)
+    i0 = int(rs.randint(0, nw - m + 1))
+
+    def modify(e):
+        for j in range(1, m):
+            e[i0 + j] = e[i0] + j * delta
+        for j in range(i0 + m, len(e)):
+            e[j] = max(e[j], e[i0 + m - 1] + 0.5)
+        for j in range(i0):
+            e[j] = min(e[j], e[i0] - 0.5)
+        return e
+    k0 = np.zeros(3)
+    e2 = tune_spectrum(s, k0, modify)
+    where = case["where"]
+    ef0 = {"between": 0.5 * (e2[i0] + e2[i0 + 1]), "at_lower": e2[i0], "at_upper": e2[i0 + 1],
+           "quarter": e2[i0] + 0.25 * (e2[i0 + 1] - e2[i0])}[where]
+    Ef = np.linspace(ef0, ef0 + 0.8, 5)
+    opts = dict(degen_thresh=case["degen_thresh"])
+    NKFFT = np.array(s.NKFFT_recommended)
+    NK = NKFFT * np.array(case["NKdiv"])
+    res = []
+    for rg in (False, True):
+        calcs = integrators(Ef, **opts) if ctx.tier == "quick" else all_static(ctx, s, Ef, **opts)
+        with quiet():
+            np.random.seed(case["seed"] % 10000 + 13)
+            grid = wb.Grid(s, NK=NK, NKFFT=NKFFT)
+            res.append(wb.run(s, grid=grid, calculators=calcs, parallel=False, print_Kpoints=False, symmetrize=False,
+                              parameters_K={"random_gauge": rg, "degen_thresh_random_gauge": case["degen_thresh"]}))
+    ctx.case(signature=("sea_gauge", case["seed"], nw, m, delta, where, case["degen_thresh"]), nontrivial=True)
+    # an exactly degenerate multiplet is gauge invariant to rounding; a split one (delta > 0) only up to O(delta/gap):
+    # the rotated states are eigenstates up to delta, energies and 1/(E_n-E_l) factors inside formulas differ by delta
+    tol = 1e-8 if delta == 0 else 1e-6 + 40 * delta
+    for name in res[0].results:
+        compare(ctx, f"integrated {name}: lowest Fermi level {ef0!r} inside a {m}-fold multiplet of Gamma (splitting {delta}, "
+                     f"degen_thresh {case['degen_thresh']}): random_gauge=True vs False",
+                res[0].results[name].data, res[1].results[name].data,
+                dict(case, calculator=name, Efermi=Ef, NK=NK, levels_at_Gamma=e2), tol=tol)
+
+
+RUNNERS = {"sea_gauge": case_sea_gauge, "options": case_options, "routes": case_routes, "touch_k": case_touch_k, "touch_run": case_touch_run, "periodic": case_periodic, "periodic_kp": case_periodic_kp, "gauge_k": case_gauge_k, "gauge_run": case_gauge_run}
 
 
 def rand_G(rng):
@@ -926,6 +975,11 @@ def oracle(ctx, scale):
         cases.append(dict(kind="options", seed=rng.getrandbits(31), n0=n0, m=m, touch=touch, paired=rng.random() < 0.5,
                           kramers=kr, degen_thresh=rng.choice([1e-4, 1e-3, 0.05]), k0=rng.choice(K0S), G=rand_G(rng),
                           run=(it % 4 == 0 if ctx.tier == "thorough" else it == 0)))
+    for it in range(ctx.n(4, 30) * scale):
+        delta = rng.choice([0.0, 2e-5, 5e-5, 5e-5])
+        cases.append(dict(kind="sea_gauge", seed=rng.getrandbits(31), nw=rng.randint(3, 5), m=rng.choice([2, 2, 3]),
+                          delta=delta, where=rng.choice(["between", "at_lower", "at_upper", "quarter"]),
+                          degen_thresh=rng.choice([1e-4, 1e-3]), NKdiv=[rng.randint(1, 2), 1, 1]))
     for case in cases:
         ctx.count(f"oracle.{case['kind']}")
         with ctx.attempt(f"{case['kind']} case", case):
